@@ -169,7 +169,10 @@ def split_iter(src, sep=None, maxsplit=None):
     cur_group = []
     split_count = 0
     for s in src:
-        if maxsplit is not None and split_count >= maxsplit:
+        if maxsplit is not None and split_count >= maxsplit and (
+                cur_group or sep is not None):
+            # no more splits; when grouping (sep is None) separators leading
+            # the last group are still dropped, as str.split() does
             def sep_func(x): return False
         if sep_func(s):
             if sep is None and not cur_group:
